@@ -38,7 +38,10 @@ type C05Session struct {
 	// SilentEnd: when the scripted activity is over the peer says nothing more (it keeps reading); the
 	// session probes it and then ends the connection itself. Nothing is in flight at that point, so the
 	// stored counter must be the last number that went out.
-	SilentEnd bool  `json:"silent_end,omitempty"`
+	SilentEnd bool `json:"silent_end,omitempty"`
+	// Forwarded: every other application message was received on another session and parsed (it carries that
+	// session's number, identifiers and time) before it is sent on through this one
+	Forwarded bool  `json:"forwarded,omitempty"`
 	GapAfter  int64 `json:"gap_after"` // virtual ns between the end of this connection and the next session (-1: the full settling time)
 }
 
@@ -95,6 +98,7 @@ func genC05(t *rapid.T) *C05Case {
 		ss.ResetIncoming = s > 0 && rapid.IntRange(0, 2).Draw(t, "resetIncoming") == 0
 		// (for N = 1 and N = 2 a timer Heartbeat falls on the instant of the disconnect: in flight by definition)
 		ss.SilentEnd = c.N >= 3 && rapid.IntRange(0, 3).Draw(t, "silentEnd") == 0
+		ss.Forwarded = !ss.Shared && rapid.IntRange(0, 3).Draw(t, "forwarded") == 0
 		c.Sessions = append(c.Sessions, ss)
 	}
 	return c
@@ -210,6 +214,9 @@ func checkC05(c *C05Case, rec *evid.Rec) (vs []pbt.Violation) {
 							time.Sleep(time.Duration(d))
 						}
 						msg := rig.NewApp(fmt.Sprintf("s%d-g%d-%d", si, gi, j))
+						if ss.Forwarded && (gi+j)%2 == 0 {
+							msg = rig.NewForwardedApp(fmt.Sprintf("s%d-g%d-%d", si, gi, j), gi*20+j)
+						}
 						if ss.Shared {
 							msg = sharedMsg
 						}
@@ -228,6 +235,7 @@ func checkC05(c *C05Case, rec *evid.Rec) (vs []pbt.Violation) {
 				}()
 			}
 			// the peer: scripted inbound traffic plus a keep-alive every 0.7 N
+			lastFeed := time.Now() // instant of the peer's last message (written by the peer goroutine, read after it has ended)
 			stopPeer := make(chan struct{})
 			peerDone := make(chan struct{})
 			go func() {
@@ -250,6 +258,7 @@ func checkC05(c *C05Case, rec *evid.Rec) (vs []pbt.Violation) {
 						return
 					case <-tick.C:
 						conn.Feed((&rig.InMsg{Type: rig.THeartbeat, Seq: next()}).Bytes())
+						lastFeed = time.Now()
 					case <-timer:
 						var m *rig.InMsg
 						switch ss.Peer[k].Kind {
@@ -272,6 +281,7 @@ func checkC05(c *C05Case, rec *evid.Rec) (vs []pbt.Violation) {
 							m = &rig.InMsg{Type: "D", Seq: next(), Fields: []rig.Tok{rig.F("11", "x")}}
 						}
 						conn.Feed(m.Bytes())
+						lastFeed = time.Now()
 						k++
 						arm()
 					}
@@ -289,9 +299,24 @@ func checkC05(c *C05Case, rec *evid.Rec) (vs []pbt.Violation) {
 			time.Sleep(3 * time.Second) // store/handler/write delays of messages in flight
 			synctest.Wait()
 			if ss.SilentEnd {
+				// The session disconnects 2T .. 2T+T/5 after the peer's last message. Its heartbeat timer is
+				// checked every N/10 only, so a timer Heartbeat could fall on that very instant (and take a number
+				// without reaching the wire, which is in order). To rule that out the application sends one more
+				// message N/2 before the earliest possible disconnect: the next timer Heartbeat is then not due
+				// before 2T+N/2-N/10, which is later than 2T+T/5 for every N >= 3.
 				tol := max(1, c.N/20)
 				T := time.Duration(c.N+tol) * time.Second
-				time.Sleep(2*T + T/5 + 2*time.Second)
+				N := time.Duration(c.N) * time.Second
+				if d := time.Until(lastFeed.Add(2*T - N/2)); d > 0 {
+					time.Sleep(d)
+				}
+				st := time.Now()
+				if err := sess.Send(rig.NewApp(fmt.Sprintf("s%d-before-the-disconnect", si))); err == nil {
+					o.starts = append(o.starts, st)
+				}
+				if d := time.Until(lastFeed.Add(2*T + T/5 + 2*time.Second)); d > 0 {
+					time.Sleep(d)
+				}
 				synctest.Wait()
 				o.selfEnded, _ = conn.IsClosed()
 			}
@@ -487,6 +512,9 @@ func checkC05(c *C05Case, rec *evid.Rec) (vs []pbt.Violation) {
 	for i, ss := range c.Sessions {
 		if ss.SilentEnd && i < len(obs) && obs[i].selfEnded {
 			rec.Hist("session-ended-by-its-own-watchdog")
+		}
+		if ss.Forwarded {
+			rec.Hist("forwarded-parsed-messages")
 		}
 		if ss.Shared {
 			rec.Hist("shared-message-object")
